@@ -309,9 +309,14 @@ impl LsmVerifier {
         if let Some(o) = output.key() {
             return Err(corruption("data construction").with_debug_field("output", o));
         }
-        while let Some(i) = input.key_value() {
+        while let Some(i) = input.key() {
+            // Inputs past the last output were all dropped.  None of them may be something the
+            // policy retains.
+            if gc_next == Some(i) {
+                return Err(corruption("data loss").with_debug_field("input", i));
+            }
             let mut setsum = sst::Setsum::default();
-            setsum.insert(i);
+            setsum.insert(input.key_value().unwrap());
             computed_discard += setsum.into_inner();
             input.next()?;
         }
